@@ -50,6 +50,16 @@ type corpusFile struct {
 
 type corpus struct {
 	all, small, large []corpusFile
+	themes            map[string][]corpusFile // feature class -> files (swarm: a run may draw from one class only)
+	themeNames        []string
+}
+
+// feature classes by content: a themed run keeps all its concurrent tasks in
+// the same region of the code (the same lexer states, the same grammar
+// actions, the same resolver branches), which is where sharing goes wrong
+var themeMarks = []struct{ name, mark string }{
+	{"heredoc", "<<<"}, {"namespace", "namespace"}, {"use", "use "}, {"html", "?>"}, {"class", "class "},
+	{"trait", "trait"}, {"function", "function"}, {"string", "\"$"}, {"comment", "/*"}, {"static", "static"}, {"array", "["},
 }
 
 func loadCorpus(dir string) (*corpus, error) {
@@ -58,7 +68,7 @@ func loadCorpus(dir string) (*corpus, error) {
 		return nil, err
 	}
 	sort.Strings(names)
-	c := &corpus{}
+	c := &corpus{themes: map[string][]corpusFile{}}
 	for _, n := range names {
 		b, err := os.ReadFile(n)
 		if err != nil {
@@ -72,7 +82,23 @@ func loadCorpus(dir string) (*corpus, error) {
 		} else {
 			c.large = append(c.large, f)
 		}
+		if len(b) <= 8192 {
+			for _, t := range themeMarks {
+				if bytes.Contains(b, []byte(t.mark)) {
+					c.themes[t.name] = append(c.themes[t.name], f)
+				}
+			}
+			if f.bad {
+				c.themes["malformed"] = append(c.themes["malformed"], f)
+			}
+		}
 	}
+	for n, fs := range c.themes {
+		if len(fs) >= 4 {
+			c.themeNames = append(c.themeNames, n)
+		}
+	}
+	sort.Strings(c.themeNames)
 	if len(c.small) == 0 || len(c.large) == 0 {
 		return nil, os.ErrNotExist
 	}
@@ -82,9 +108,14 @@ func loadCorpus(dir string) (*corpus, error) {
 var versions = []string{"5.0", "5.3", "5.6", "7.0", "7.1", "7.2", "7.3", "7.4", ""}
 
 // input composes one input from the corpus.
-func (c *corpus) input(r *rng, pLarge int) scn.Input {
+func (c *corpus) input(r *rng, pLarge int) scn.Input { return c.inputT(r, pLarge, "") }
+
+// inputT draws from one feature class when theme is set.
+func (c *corpus) inputT(r *rng, pLarge int, theme string) scn.Input {
 	var f corpusFile
-	if r.chance(pLarge) {
+	if fs := c.themes[theme]; theme != "" && len(fs) > 0 && r.chance(90) {
+		f = fs[r.n(len(fs))]
+	} else if r.chance(pLarge) {
 		f = c.large[r.n(len(c.large))]
 	} else {
 		f = c.small[r.n(len(c.small))]
@@ -180,13 +211,18 @@ func genC11CLI(c *corpus, r *rng, seed uint64) *scn.Scenario {
 	nf := r.pick([]int{1, 2, 2, 3, 3, 4, 5, 6, 8, 12})
 	pLarge := r.pick([]int{0, 0, 0, 3, 10})
 	split := r.chance(30)
+	theme := ""
+	if r.chance(35) && len(c.themeNames) > 0 {
+		theme = c.themeNames[r.n(len(c.themeNames))]
+		s.Theme = theme
+	}
 	for i := 0; i < nf; i++ {
 		var in scn.Input
 		if i > 0 && r.chance(10) {
 			in = s.Inputs[r.n(i)] // the same content under another name
 			in.Src = append([]byte(nil), in.Src...)
 		} else {
-			in = c.input(r, pLarge)
+			in = c.inputT(r, pLarge, theme)
 		}
 		in.Version, in.Callback = "", true
 		dir := ""
@@ -248,6 +284,11 @@ func genC11(c *corpus, seed uint64) *scn.Scenario {
 	// must give identical trees)
 	ni := 1 + r.n(2*nt+2)
 	pLarge := r.pick([]int{0, 0, 0, 2, 5, 20})
+	theme := ""
+	if r.chance(35) && len(c.themeNames) > 0 {
+		theme = c.themeNames[r.n(len(c.themeNames))]
+		s.Theme = theme
+	}
 	for i := 0; i < ni; i++ {
 		if i > 0 && r.chance(15) {
 			// a near-duplicate of an earlier input: same program, a few letters
@@ -266,7 +307,7 @@ func genC11(c *corpus, seed uint64) *scn.Scenario {
 			s.Inputs = append(s.Inputs, v)
 			continue
 		}
-		s.Inputs = append(s.Inputs, c.input(r, pLarge))
+		s.Inputs = append(s.Inputs, c.inputT(r, pLarge, theme))
 	}
 	shareAll := r.chance(50)
 	for t := 0; t < nt; t++ {
